@@ -103,19 +103,19 @@ func (c *Client) Backoff(err error) <-chan struct{} {
 func (c *Client) Ping(quit <-chan struct{}) error {
 	// install callback
 	done := make(chan error, 1)
+	c.pingMutex.Lock()
 	select {
 	case c.pingAck <- done:
+		c.pingMutex.Unlock()
 		break // OK
 	default:
+		c.pingMutex.Unlock()
 		return fmt.Errorf("%w; PING unavailable", ErrMax)
 	}
 
 	// submit transaction
 	if err := c.write(quit, packetPINGREQ); err != nil {
-		select {
-		case <-c.pingAck: // unlock
-		default: // picked up by unrelated pong
-		}
+		c.unlockPing(done) // if not picked up by unrelated pong
 		if errors.Is(err, ErrSubmit) {
 			return fmt.Errorf("%w; PING in limbo", err)
 		}
@@ -126,12 +126,29 @@ func (c *Client) Ping(quit <-chan struct{}) error {
 	case err := <-done:
 		return err
 	case <-quit:
-		select {
-		case <-c.pingAck: // unlock
+		if c.unlockPing(done) {
 			return fmt.Errorf("%w; PING not confirmed", ErrAbandoned)
-		default: // picked up in mean time
-			return <-done
 		}
+		// picked up in mean time
+		return <-done
+	}
+}
+
+// UnlockPing removes the callback from the ping slot. The return is false when
+// done was picked up already. A callback from another Ping stays in place.
+func (c *Client) unlockPing(done chan<- error) (removed bool) {
+	// Lock out callback installs for a non-blocking restore.
+	c.pingMutex.Lock()
+	defer c.pingMutex.Unlock()
+	select {
+	case ack := <-c.pingAck:
+		if ack == done {
+			return true
+		}
+		c.pingAck <- ack // restore
+		return false
+	default:
+		return false
 	}
 }
 
